@@ -76,6 +76,8 @@ package phase3
 //@ func wmedianProcessor.setPos
 //@   requires[|C01] p != nil && n != nil
 //@   ensures[|C01] has(p.positions, n) && p.positions[n] == pos && n.LayerPos == pos
+//@   ensures[|C01] forall x *Node :: x != n ==> has(p.positions, x) == old(has(p.positions, x)) && p.positions[x] == old(p.positions[x]) && x.LayerPos == old(x.LayerPos)
+//@   ensures[|C01] p.positions == old(p.positions)
 
 // listsApart: the graph's edge list shares no memory with an adjacency list, its node list none with a band
 //@ spec listsApart(g *DGraph) bool =
@@ -115,3 +117,13 @@ package phase3
 //@   loop for(i<len(g.Edges))#1
 //@     invariant i <= len(g.Edges) && endsValid(g) && listsApart(g)
 //@     invariant[|C03] forall j int :: 0 <= j && j < i ==> g.Edges[j].To.Layer - g.Edges[j].From.Layer <= 1 && g.Edges[j].From.Layer - g.Edges[j].To.Layer <= 1
+
+// posOK: the position map and the LayerPos field agree wherever the map has an entry (what getPos' sanity panic checks)
+//@ spec posOK(p *wmedianProcessor) bool = forall x *Node :: has(p.positions, x) ==> x != nil && p.positions[x] == x.LayerPos
+//@ func wmedianProcessor.swap
+//@   requires[|C01] p != nil && v != nil && w != nil && has(p.positions, v) && has(p.positions, w) && posOK(p)
+//@   ensures[|C01] posOK(p) && (forall x *Node :: has(p.positions, x) == old(has(p.positions, x)))
+//@ func wmedianProcessor.adjacentNodesPositions
+//@   requires[|C01] p != nil && n != nil && posOK(p)
+//@   requires[|C01] forall k int :: 0 <= k && k < len(edges) ==> edges[k] != nil && edges[k].From != nil && edges[k].To != nil
+//@       && has(p.positions, edges[k].From) && has(p.positions, edges[k].To)
